@@ -36,7 +36,7 @@ W = {
     "xonsh_display_unsanitised": [case("xonsh", [("ab", "a\nb", "")])],
     "xonsh_nospace_after_quoting": [case("xonsh", ["my dir/"], nospace="/")],
     "bashble_unsanitised": [case("bash-ble", ["a/\tb", "a/"], nospace="/"), case("bash-ble", [("a\tb", "a\tb", "line1\nline2")]), case("bash-ble", ["a/\tb"], nospace="b"),
-                            case("bash-ble", [], msgs=["tab\there"])],
+                            case("bash-ble", [], msgs=["tab\there"]), case("bash-ble", [("\tERR", "RR", "c")], msgs=["m"], nospace="1")],
     "oil_unsanitised": [case("oil", ["a\nb", "c\rd"]), case("oil", ["a\nb", "c"], msgs=["m"])],
     "bash_listmode_unsanitised": [case("bash", [("cd", "x\nd", ""), ("ce", "ye", "")], env={"bashCompType": "63"})],
     "cmdclink_empty_fields": [case("cmd-clink", [("a/", "a/", "")], nospace="/"), case("cmd-clink", [("a", "a", "")]),
